@@ -123,6 +123,7 @@ func runSimple2Bubble(sc scenario) result {
 	next := uint(1)
 	terminated, errCode := false, int64(-1)
 	runningAtTermination := -1
+	atTermination := 0
 	poll := func() {
 		if terminated {
 			return
@@ -137,6 +138,8 @@ func runSimple2Bubble(sc scenario) result {
 			mu.Lock()
 			runningAtTermination = len(running) - 0
 			mu.Unlock()
+			// quiescent (poll follows synctest.Wait): a terminated discipline has no goroutine left, handlers included
+			atTermination = libGoroutines()
 		default:
 		}
 	}
@@ -229,7 +232,7 @@ func runSimple2Bubble(sc scenario) result {
 		res.vals = append(res.vals, "no-termination")
 	}
 	swallow()
-	res.vals = append(res.vals, "goroutines", itoa(libGoroutines()))
+	res.vals = append(res.vals, "goroutines", itoa(max(libGoroutines(), atTermination)))
 	return res
 }
 
